@@ -553,20 +553,23 @@ def _leading_dim(ctx, fis):
                               'precond_dim', '_quantize_momentum', '_quantize_diagonal_statistics', 'init_avg_grad', 'init_training_metrics'})
     ev.run(fi)
     sc = ev.last_scope
-    # find the loop that computes max_size
-    found = False
-    for node in ast.walk(fi.node):
-      if isinstance(node, ast.If):
-        body_src = ' '.join(norm_src(s) for s in node.body)
-        if 'max_size = max(' in body_src:
-          found = True
-          test = norm_src(node.test)
-          ok = test in ('not _skip_preconditioning(param)',)
-          ctx.ob('C07.R3', fi.short, 'max statistic size over preconditioned parameters only', ok,
-                 f'the maximal statistic size must be taken over parameters that are not skipped (guard `{test}`); '
-                 'init and declaration otherwise disagree on the padded size', ctx.loc(fi, node), sample='if not _skip_preconditioning(param): max_size = max(...)')
-    if not found:
-      raise AnalysisError(f'{fi.short}: max_size computation not found')
+    # the running maximum over statistic sizes (found by shape: a loop value folding builtin max into itself)
+    accs = []
+    for v_ in sc.vars.values():
+      for x in walk(v_):
+        if x.op == 'loop' and x not in accs and any(y.op == 'call' and y.args[0].op == 'builtin' and y.args[0].args[0] == 'max' and
+                                                   any(z.op == 'phi' and z.args[0] == x.args[0] for z in y.args[1]) for y in walk(x.args[3])):
+          accs.append(x)
+    if not accs:
+      raise AnalysisError(f'{fi.short}: running maximum of statistic sizes not found')
+    for x in accs:
+      body = x.args[3]
+      phi_ = [z for z in walk(body) if z.op == 'phi' and z.args[0] == x.args[0]][0]
+      ok = body.op == 'ite' and fn_name(body.args[0]) == '_skip_preconditioning' and body.args[1] is phi_ and \
+          body.args[2].op == 'call' and body.args[2].args[0].op == 'builtin' and body.args[2].args[0].args[0] == 'max' and is_const(x.args[2], 0)
+      ctx.ob('C07.R3', fi.short, 'max statistic size over preconditioned parameters only', ok,
+             f'the maximal statistic size must be taken over parameters that are not skipped and start at 0; got `{show(x, maxdepth=4)[:200]}`; '
+             'init and declaration otherwise disagree on the padded size', ctx.loc(fi), sample='if not _skip_preconditioning(param): max_size = max(...)')
 
 
 def _dtype_of(t):
